@@ -102,6 +102,7 @@ type RunStats struct {
 	Summaries    int
 	Cached       int
 	FinalCached  int
+	SearchOnly   bool           // a bug-hunting harness that stopped early (not exhaustive)
 	ForkSites    map[string]int // decision sites that produced alternatives (new forks)
 }
 
@@ -122,6 +123,7 @@ func (s *RunStats) merge(o *RunStats) {
 	s.SolverDur += o.SolverDur
 	s.Schedules += o.Schedules
 	s.Summaries += o.Summaries
+	s.SearchOnly = s.SearchOnly || o.SearchOnly
 	s.Cached += o.Cached
 	s.FinalCached += o.FinalCached
 	if o.MaxDecisions > s.MaxDecisions {
@@ -191,6 +193,7 @@ type Run struct {
 	ctxs           []*subCtx
 	localDepth     int
 	noSummaries    bool
+	searchOnly     int
 	auxCounter     int
 	cs             *cryptoState
 	stickyPerm     map[stickyKey]int
@@ -773,6 +776,17 @@ func (e *Engine) exploreHarness(fn *ssa.Function, workers int) *HarnessResult {
 					res.Err = errMsg
 				}
 				tooMany := e.opts.MaxPaths > 0 && res.Stats.Paths >= e.opts.MaxPaths
+				if run.searchOnly > 0 && (len(res.Verdicts) > 0 || res.Stats.Paths >= run.searchOnly) {
+					// a declared bug-hunting harness: stop at the first verdict or at its path budget
+					res.Stats.SearchOnly = true
+					rmu.Unlock()
+					q.mu.Lock()
+					q.stopped = true
+					q.mu.Unlock()
+					q.cond.Broadcast()
+					q.done()
+					continue
+				}
 				rmu.Unlock()
 				if errMsg != "" || tooMany {
 					q.mu.Lock()
